@@ -19,7 +19,7 @@ from ..findings import Reporter
 from ..tlaval import dump_chunks, parse, parse_state
 
 PROP = "C08"
-CLASSES = ["plain", "empty", "quote", "backslash", "bsquote", "newline", "tab", "ctrl", "nonascii", "astral", "trailbs", "jsonish", "linesep", "pathshape"]
+CLASSES = ["plain", "empty", "quote", "backslash", "bsquote", "newline", "tab", "ctrl", "nonascii", "astral", "trailbs", "jsonish", "linesep", "pathshape", "long"]
 INSTANCES = {
     "plain": ["alpha", "Beta_2", "x"],
     "empty": [""],
@@ -36,6 +36,8 @@ INSTANCES = {
     # everything str.splitlines() / a text-mode reader may take for a line break, followed by a visible character
     # path strings that are not in normalised form: a report stores the strings it was given, whatever they look like
     "pathshape": ["./x", "a//b", "a/../b", "a/./b", "..", "a/", " a", "a "],
+    # longer than any line width a writer might want to keep: with blanks (places where a line could be folded), without, and much longer
+    "long": [" ".join(["word"] * 40), "x" * 300, "My Project (copy 2)/" * 12 + "src", ("lorem ipsum " * 500).strip()],
     "linesep": ["a\u2028b", "x\u2029y", "p\x85q", "v\x0bw", "f\x0cg", "s\x1ct\x1du\x1ev"],
 }
 BOUNDS = {"quick": dict(MaxFiles=2, MaxMeas=3, MaxSpecial=1, inst=1, shapes='{"top", "nested", "deep"}'), "thorough": dict(MaxFiles=3, MaxMeas=3, MaxSpecial=1, inst=3, shapes='{"top", "nested", "deep"}')}
